@@ -540,6 +540,32 @@ func (c *Ctx) ringDiscipline(info *types.Info) {
 			return true
 		})
 	}
+	// the ring's state is touched by its own methods and its constructor only: anything else in
+	// the package that reads begin/end/buffer re-implements the wrap-around outside these rules
+	for _, fi := range c.P.Decls {
+		if fi.Pkg.PkgPath != c.P.Pkg("helper").PkgPath || fi.Decl.Body == nil {
+			continue
+		}
+		if strings.HasSuffix(c.P.Fset.Position(fi.Decl.Pos()).Filename, "_test.go") {
+			continue
+		}
+		if (fi.Decl.Recv != nil && recvTypeName(fi) == "Ring") || fi.Fn.Name() == "NewRing" {
+			continue
+		}
+		ast.Inspect(fi.Decl.Body, func(n ast.Node) bool {
+			sel, ok := n.(*ast.SelectorExpr)
+			if !ok {
+				return true
+			}
+			if t := info.TypeOf(sel.X); t != nil && helperNamed(t) == "Ring" {
+				if v, isField := info.ObjectOf(sel.Sel).(*types.Var); isField && v.IsField() {
+					run.Oblige(false)
+					c.violate("ring-encapsulation", "helper."+fi.Fn.Name(), exprString(sel), sel.Pos(), "helper."+fi.Fn.Name()+" reads or writes the ring's internal field "+sel.Sel.Name+" directly: the FIFO order of a wrapped ring is only guaranteed through Put/Get/At, whose indices these rules check")
+				}
+			}
+			return true
+		})
+	}
 	run.Count("ring_index_sites", nIdx)
 	run.Floor("ring_index_sites", 3)
 }
